@@ -8,7 +8,7 @@ for d in seeded/*/; do
   n=$(basename $d); id=${n%%-*}
   echo $id | grep -Eq "$FILTER" || continue
   git -C /repo checkout -q -- . ; git -C /repo apply /verif/$d/patch.diff 2>/dev/null || { echo "$n: patch does not apply"; continue; }
-  out=$(VERIF_SEED=$SEED ./check $id quick 2>&1 | grep -v KNOWN | tail -1)
+  out=$(VERIF_NOSHRINK=1 VERIF_SEED=$SEED ./check $id quick 2>&1 | grep -v KNOWN | tail -1)
   case "$out" in VIOLATION*) echo "$n: detected";; *) echo "$n: MISSED ($out)";; esac
   git -C /repo checkout -q -- .
 done
